@@ -88,6 +88,108 @@ theorem consumer_clone_fresh (fresh : Nat → α → α) (c : ArrayConsumer.Cons
   obtain ⟨c', h1, h2, _⟩ := ArrayConsumer.wf_clone fresh h
   exact ⟨c', h1, h2, h⟩
 
+/-! ### `Clone` with an element `Clone` that PANICS part-way -/
+
+/-- the two models of `ArrayConsumer::clone` are one: with an element `Clone` that never panics the
+    panic-aware loop is the plain loop -/
+theorem consumer_cloneP_total (fresh : Nat → α → α) (c : ArrayConsumer.Consumer α) :
+    ArrayConsumer.cloneP (fun i x => some (fresh i x)) c =
+      (match ArrayConsumer.clone fresh c with | some c' => .done c' | none => .ub) := by
+  have hloop : ∀ (l : List α) (i : Nat) (this : ArrayConsumer.Consumer α),
+      ArrayConsumer.cloneLoopP (fun i x => some (fresh i x)) l i this =
+        .done (ArrayConsumer.cloneLoop fresh l i this) := by
+    intro l
+    induction l with
+    | nil => intro i this; rfl
+    | cons x r ih => intro i this; simp [ArrayConsumer.cloneLoopP, ArrayConsumer.cloneLoop, ih]
+  unfold ArrayConsumer.cloneP ArrayConsumer.clone
+  cases ArrayConsumer.asSlice c with
+  | none => rfl
+  | some l => simp [hloop]
+
+/-- `ArrayConsumer::clone` when `T::clone` may panic (ANY element `Clone`, as a function call number →
+    element → copy-or-panic), on any well-formed consumer owning `rem`:
+    * if some call panics, unwinding drops EXACTLY the copies made before that call — each once, in
+      order, nothing else (in particular no slot that was never written: the outcome is never `ub`);
+    * otherwise the clone owns exactly the copies (and the ledger law applies to it);
+    * the original still owns `rem` (it is only borrowed) -/
+theorem consumer_clone_panic_ledger (fresh : Nat → α → Option α) (c : ArrayConsumer.Consumer α)
+    (rem : List α) (h : ArrayConsumer.Wf c rem) :
+    let cp := clonesUntilPanic fresh 0 rem
+    (∀ d, ArrayConsumer.cloneP fresh c = .panicked d ↔ (cp.2 = true ∧ d = cp.1)) ∧
+    (cp.2 = false → ∃ c', ArrayConsumer.cloneP fresh c = .done c' ∧ ArrayConsumer.Wf c' cp.1) ∧
+    (∀ c', ArrayConsumer.cloneP fresh c = .done c' → cp.2 = false) ∧
+    ArrayConsumer.Wf c rem := by
+  intro cp
+  obtain ⟨g1, g2⟩ := cons_cloneP fresh h
+  cases hp : cp.2 with
+  | true =>
+    have e := g1 hp
+    refine ⟨fun d => ?_, by simp, fun c' hc' => ?_, h⟩
+    · rw [e]; constructor
+      · intro hd; cases hd; exact ⟨rfl, rfl⟩
+      · rintro ⟨_, rfl⟩; rfl
+    · rw [e] at hc'; cases hc'
+  | false =>
+    obtain ⟨c', hc', hw, _⟩ := g2 hp
+    refine ⟨fun d => ?_, fun _ => ⟨c', hc', hw⟩, fun _ _ => rfl, h⟩
+    rw [hc']; constructor
+    · intro hd; cases hd
+    · rintro ⟨hf, _⟩; cases hf
+
+/-- the concrete case the harness exercises: `T::clone` panics on its `j`-th call.  With `j` inside the
+    remaining slice the `j` copies already created are dropped exactly once and nothing else is; the
+    step leaves the consumer as it was, so the rest of the history (covered by `consumer_refines_deque`,
+    whose histories include such steps) sees an intact original -/
+theorem consumer_clone_panic_at (fresh : Nat → α → α) (c : ArrayConsumer.Consumer α) (rem : List α)
+    (k j : Nat) (h : ArrayConsumer.Wf c rem) :
+    (j < rem.length →
+      ArrayConsumer.cloneP (ArrayBuilder.panicAt fresh j) c = .panicked (mapFrom fresh 0 (rem.take j))) ∧
+    (rem.length ≤ j → ∃ c', ArrayConsumer.cloneP (ArrayBuilder.panicAt fresh j) c = .done c' ∧
+      ArrayConsumer.Wf c' (mapFrom fresh 0 rem)) ∧
+    (ArrayConsumer.step fresh (c, k) (.clonePanic j)).1.1 = c ∧
+    (ArrayConsumer.step fresh (c, k) (.clonePanic j)).2 =
+      (if j < rem.length then .panicked (mapFrom (fun i => fresh (k + i)) 0 (rem.take j))
+       else .cloned (mapFrom (fun i => fresh (k + i)) 0 rem)) := by
+  obtain ⟨g1, g2⟩ := cons_cloneP (ArrayBuilder.panicAt fresh j) h
+  rw [cup_panicAt] at g1 g2
+  have hs := cons_step fresh k h (.clonePanic j)
+  refine ⟨fun hj => ?_, fun hj => ?_, ?_, ?_⟩
+  · simpa [refClonePanic, hj] using g1 (by simp [refClonePanic, hj])
+  · have hn : ¬ j < rem.length := by omega
+    obtain ⟨c', hc, hw, _⟩ := g2 (by simp [refClonePanic, hn])
+    exact ⟨c', hc, by simpa [refClonePanic, hn] using hw⟩
+  · obtain ⟨p1, p2⟩ := cons_cloneP (ArrayBuilder.panicAt (fun i => fresh (k + i)) j) h
+    rw [cup_panicAt] at p1 p2
+    by_cases hj : j < rem.length
+    · have := p1 (by simp [refClonePanic, hj])
+      simp [ArrayConsumer.step, this]
+    · obtain ⟨c', hc, hw, _⟩ := p2 (by simp [refClonePanic, hj])
+      simp [ArrayConsumer.step, hc, ArrayConsumer.wf_dropped hw]
+  · rw [hs.2.2]
+    by_cases hj : j < rem.length <;> simp [dqStep, refClonePanic, hj]
+
+/-- the same for `ArrayBuilder::clone` (`for elem in self.as_slice() { this.push(elem.clone()) }`): for
+    every history from `new()`, holding `acc`: a panicking `T::clone` drops exactly the copies pushed
+    into the half-built clone so far; otherwise the clone holds exactly the copies; never `ub` -/
+theorem builder_clone_panic_ledger (fresh : Nat → α → α) (cl : Nat → α → Option α) (n : Nat)
+    (ops : List (ArrayBuilder.Op α)) :
+    let b := (ArrayBuilder.run fresh (ArrayBuilder.new n, 0) ops).1.1
+    let acc := (bvRun fresh n ([], 0) ops).1.1
+    let cp := clonesUntilPanic cl 0 acc
+    (cp.2 = true → ArrayBuilder.cloneP cl b = .panicked cp.1) ∧
+    (cp.2 = false → ∃ c, ArrayBuilder.cloneP cl b = .done c ∧ ArrayBuilder.dropped c = some cp.1 ∧
+      ArrayBuilder.asSlice c = some cp.1) ∧
+    ArrayBuilder.dropped b = some acc := by
+  intro b acc cp
+  obtain ⟨h1, _, _, _⟩ := bld_run fresh ops (ArrayBuilder.new n) [] 0 (ArrayBuilder.wf_new n)
+  have hn : (ArrayBuilder.new n : ArrayBuilder.Builder α).n = n := rfl
+  rw [hn] at h1
+  obtain ⟨g1, g2⟩ := bld_cloneP cl h1
+  refine ⟨g1, fun hp => ?_, ArrayBuilder.wf_dropped h1⟩
+  obtain ⟨c, hc, hw, _⟩ := g2 hp
+  exact ⟨c, hc, ArrayBuilder.wf_dropped hw, ArrayBuilder.wf_asSlice hw⟩
+
 /-! ### `ArrayBuilder` -/
 
 /-- every history from `ArrayBuilder::new()`: at the end the builder owns exactly the accepted values
@@ -261,5 +363,21 @@ example : Destructure.destructureArray [1, 2, 3, 4, 5] ⟨[.bind], some .wild, [
 example : ArrayConsumer.Wf (ArrayConsumer.new [1, 2, 3]) [1, 2, 3] := ArrayConsumer.wf_new _
 example : (ArrayConsumer.run (fun k (_ : Nat) => k) (ArrayConsumer.new [0, 1, 2], 3)
     [.next, .nextBack, .clone, .next]).2.length = 4 := by decide
+/-- `T::clone` panics on its second call while cloning a consumer that has given away its first element:
+    the one copy made so far is dropped, nothing else -/
+example : (match ArrayConsumer.cloneP (ArrayBuilder.panicAt (fun k (_ : Nat) => 100 + k) 1)
+      { (ArrayConsumer.new [0, 1, 2, 3]) with takenFront := 1 } with
+    | .panicked d => some d | _ => none) = some [100] := by decide
+/-- `T::clone` never panics within the slice: the clone completes -/
+example : (match ArrayConsumer.cloneP (ArrayBuilder.panicAt (fun k (_ : Nat) => 100 + k) 7)
+      (ArrayConsumer.new [0, 1]) with
+    | .done c => ArrayConsumer.asSlice c | _ => none) = some [100, 101] := by decide
+/-- the state a clone with `taken_back` fixed BEFORE the loop would be dropped in after one write is a
+    real state of the model, and dropping it reads unwritten slots (`none` = UB): this is what the
+    per-element `taken_back -= 1` prevents -/
+example : ArrayConsumer.dropped (⟨3, [some 100, none, none], 0, 0⟩ : ArrayConsumer.Consumer Nat) = none := by
+  decide
+example : clonesUntilPanic (ArrayBuilder.panicAt (fun k (x : Nat) => 10 * x + k) 2) 0 [1, 2, 3, 4]
+    = ([10, 21], true) := by decide
 
 end Konst.Props.C15
